@@ -474,6 +474,71 @@ example : floatEnumOkB [(0, 4), (1, 1), (2, 16)]
     { write := none, assign := some 15, ok := true, selected := none, idx := 0, value := 4 } = false := by
   decide
 
+/-- **labels_wellformed** — whatever list of labels the constructor accepts (bare labels, tuples with or without index
+and value, any numbering, in any order; the conversion of a label text to a number is an oracle): the indices of
+`valuedict` are unique, every member of the enum has a value, all values lie in the range of the float parameter's
+datatype, no two labels share an index, and there is at least one label.  These are the hypotheses of
+`floatenum_consistent`, which therefore are facts about every constructed float/enum pair, not assumptions. -/
+theorem labels_wellformed (specs : List LabelSpec) (r : ParsedLabels) (h : parseLabels specs = some r) :
+    (r.vdict.map Prod.fst).Nodup ∧ (∀ e ∈ r.edict, ∃ v, r.vdict.lookup e.2 = some v) ∧
+    (∀ c ∈ r.vdict, r.lo ≤ c.2 ∧ c.2 ≤ r.hi) ∧ (r.edict.map Prod.snd).Nodup ∧ r.vdict ≠ [] := by
+  unfold parseLabels at h
+  simp only at h
+  cases hf : fillValues (fun lab => (specs.find? (fun e => e.label == lab)).bind (·.derived))
+      (collectLabels specs 0 [] []).1 (collectLabels specs 0 [] []).2 with
+  | none => rw [hf] at h; simp at h
+  | some vd =>
+    rw [hf] at h
+    simp only at h
+    obtain ⟨h1, _, h3, _⟩ := fillValues_spec _ _ _ _ hf (collectLabels_nodup specs 0 [] [] (by simp))
+    by_cases hnd : ((collectLabels specs 0 [] []).1.map Prod.snd).Nodup
+    · simp only [hnd, decide_true, Bool.not_true, Bool.false_eq_true, if_false] at h
+      cases vd with
+      | nil => simp at h
+      | cons c cs =>
+        simp only [Option.some.injEq] at h
+        subst h
+        refine ⟨h1, ?_, ?_, hnd, by simp⟩
+        · intro e he
+          have := h3 e he
+          cases hl : List.lookup e.2 (c :: cs) with
+          | none => rw [hl] at this; simp at this
+          | some v => exact ⟨v, rfl⟩
+        · intro c' hc'
+          obtain ⟨m1, m2⟩ := minVal_le cs c.2
+          obtain ⟨x1, x2⟩ := le_maxVal cs c.2
+          rcases List.mem_cons.1 hc' with hc | hc
+          · subst hc; exact ⟨m1, x1⟩
+          · exact ⟨m2 c' hc, x2 c' hc⟩
+    · simp [hnd] at h
+
+/-- **floatenum_consistent_of_labels** — `floatenum_consistent` for every pair the constructor builds: for every accepted
+label list, every start index among the enum members and every history, the float parameter shows the value of the
+current index after every operation, writes and driver-side assignments select a closest label. -/
+theorem floatenum_consistent_of_labels (specs : List LabelSpec) (r : ParsedLabels) (h : parseLabels specs = some r)
+    (hasR hasW : Bool) (e : String × Int) (he : e ∈ r.edict) (pre : List FOp) (op : FOp) :
+    FloatEnumOk r.vdict (frecOf { vdict := r.vdict, lo := r.lo, hi := r.hi, hasR := hasR, hasW := hasW }
+      (fexec { vdict := r.vdict, lo := r.lo, hi := r.hi, hasR := hasR, hasW := hasW }
+        (finit { vdict := r.vdict, lo := r.lo, hi := r.hi, hasR := hasR, hasW := hasW } e.2) pre) op) := by
+  obtain ⟨h1, h2, _, _, _⟩ := labels_wellformed specs r h
+  obtain ⟨v, hv⟩ := h2 e he
+  exact floatenum_consistent { vdict := r.vdict, lo := r.lo, hi := r.hi, hasR := hasR, hasW := hasW } e.2 h1
+    (by simp [validIdx, hv]) pre op
+
+/-- non-vacuity: all forms of a label; index 3 given, `'2'` continues with 4, `(1, '7')` jumps back, `('d', 5)` continues
+with 2; the values of `'2'` and `'7'` come from the label text and are appended to `valuedict` in the order of `edict` -/
+example : parseLabels [⟨some 3, "a", some 1, none⟩, ⟨none, "2", none, some 2⟩, ⟨some 1, "7", none, some 7⟩,
+      ⟨none, "d", some 5, none⟩] =
+    some { edict := [("a", 3), ("2", 4), ("7", 1), ("d", 2)], vdict := [(3, 1), (2, 5), (4, 2), (1, 7)], lo := 1, hi := 7 } := by
+  decide
+
+/-- refused: a label that is no number without a value; two labels with one index.  Accepted (a quirk): the same label
+twice — the enum keeps one member, `valuedict` both indices -/
+example : parseLabels [⟨none, "x", none, none⟩] = none ∧
+    parseLabels [⟨some 0, "a", some 1, none⟩, ⟨some 0, "b", some 2, none⟩] = none ∧ parseLabels [] = none ∧
+    parseLabels [⟨none, "a", some 1, none⟩, ⟨none, "a", some 2, none⟩] =
+      some { edict := [("a", 1)], vdict := [(0, 1), (1, 2)], lo := 1, hi := 2 } := by decide
+
 end floatenum
 
 /-! ## parameter with limit parameters -/
